@@ -308,31 +308,120 @@ fn random_files(rng: &mut Rng, n: usize) -> Vec<(String, Vec<u8>)> {
 // generator
 // ---------------------------------------------------------------------------------------------
 
+/// Case-line sink: one id per case; a *sequence* (several calls on the same thread, in order)
+/// shares one id so that the checker replays and shrinks it as a whole.
+struct Out {
+    lines: Vec<String>,
+    n: usize,
+}
+impl Out {
+    fn push(&mut self, rest: String) {
+        self.lines.push(format!("c15.{:06} {}", self.n, rest));
+        self.n += 1;
+    }
+    fn push_seq(&mut self, rests: Vec<String>) {
+        for r in rests {
+            self.lines.push(format!("c15.{:06} {}", self.n, r));
+        }
+        self.n += 1;
+    }
+}
+
+/// Characters of the alphabet whose Shift-JIS TRAIL byte lies in a lead-byte range
+/// (0x81..=0x9F, 0xE0..=0xFC): ム..ヶ, も..ん, Greek, Cyrillic о..я, ...
+pub fn trail_like_lead_chars() -> Vec<char> {
+    crate::subcodec::non_ascii()
+        .into_iter()
+        .filter(|c| {
+            let b = crate::subcodec::enc_char(*c).unwrap();
+            b.len() == 2 && matches!(b[1], 0x81..=0x9F | 0xE0..=0xFC)
+        })
+        .collect()
+}
+
+/// A name of exactly `total` Shift-JIS bytes: ASCII filler (varying with `salt`) with the
+/// double-byte character `c` occupying bytes `p`, `p + 1` (needs `p + 2 <= total`).
+pub fn boundary_name(total: usize, p: usize, c: char, salt: usize) -> String {
+    let fill = |i: usize| (b'a' + ((i * 7 + salt) % 26) as u8) as char;
+    let mut s = String::new();
+    for i in 0..p {
+        s.push(fill(i));
+    }
+    s.push(c);
+    for i in p + 2..total {
+        s.push(fill(i));
+    }
+    s
+}
+
+/// Names of 63..66 / 127..130 / 255..258 encoded bytes around the block size `b`, each with a
+/// double-byte character whose trail byte looks like a lead byte at the offsets `b-w ..= b+w-2`.
+pub fn boundary_names(rng: &mut Rng, b: usize, w: usize) -> Vec<String> {
+    let chars = trail_like_lead_chars();
+    let mut v = Vec::new();
+    for total in [b - 1, b, b + 1, b + 2] {
+        for p in b - w..=b + w {
+            if p + 2 <= total {
+                let c = *rng.pick(&chars);
+                v.push(boundary_name(total, p, c, total * 3 + p));
+            }
+        }
+    }
+    // names made of such characters only (every position), with and without one leading ASCII byte
+    for k in [b / 2 - 1, b / 2, b / 2 + 1] {
+        let c = *rng.pick(&chars);
+        let body: String = std::iter::repeat(c).take(k).collect();
+        v.push(body.clone());
+        v.push(format!("x{}", body));
+    }
+    v.sort();
+    v.dedup();
+    rng.shuffle(&mut v);
+    v
+}
+
+/// A pack image whose first record's name runs off the end of the buffer after a few bytes
+/// (a failing Shift-JIS read: `UnterminatedString`).
+fn unterminated_image(rng: &mut Rng) -> Vec<u8> {
+    let k = rng.range(1, 3) as usize;
+    let files = random_files(rng, k);
+    let m: IndexMap<String, Vec<u8>> = files.iter().cloned().collect();
+    let mut img = fe9_arc::serialize(&m).unwrap();
+    let at = img.len() as u32;
+    let tail: Vec<u8> = match rng.below(3) {
+        0 => b"zmap/c0".to_vec(),
+        1 => vec![0x83, 0x80, 0x41, 0x82],
+        _ => {
+            let l = rng.range(1, 70) as usize;
+            rng.bytes(l).into_iter().map(|b| b | 1).collect()
+        }
+    };
+    img.extend(tail);
+    let i = rng.below(k as u64) as usize;
+    img[8 + 16 * i + 4..8 + 16 * i + 8].copy_from_slice(&at.to_be_bytes());
+    img
+}
+
 pub fn gen(seed: u64, tier: &str) -> Vec<String> {
     let mut rng = Rng::new(seed ^ 0xC15);
     let thorough = tier == "thorough";
-    let mut lines: Vec<String> = Vec::new();
-    let mut n = 0usize;
-    let mut push = |lines: &mut Vec<String>, rest: String| {
-        lines.push(format!("c15.{:06} {}", n, rest));
-        n += 1;
-    };
+    let mut out = Out { lines: Vec::new(), n: 0 };
 
     // 1. bounded-exhaustive small scope: every ordered map of <= 2 files, names {a, b}, lengths
     //    {0, 1, 31, 32, 33}; plus every single file with a length 0..=66
-    push(&mut lines, "build 0".to_string());
+    out.push("build 0".to_string());
     let lens = [0usize, 1, 31, 32, 33];
     for (ai, a) in ["a", "b"].iter().enumerate() {
         for la in lens {
             let fa = (a.to_string(), rng.bytes(la));
-            push(&mut lines, format!("build {}", fmt_files(&[fa.clone()])));
+            out.push(format!("build {}", fmt_files(&[fa.clone()])));
             for (bi, b) in ["a", "b"].iter().enumerate() {
                 if ai == bi {
                     continue;
                 }
                 for lb in lens {
                     let fb = (b.to_string(), rng.bytes(lb));
-                    push(&mut lines, format!("build {}", fmt_files(&[fa.clone(), fb])));
+                    out.push(format!("build {}", fmt_files(&[fa.clone(), fb])));
                 }
             }
         }
@@ -340,7 +429,7 @@ pub fn gen(seed: u64, tier: &str) -> Vec<String> {
     for l in 0..=66usize {
         // name lengths sweep the padding of the name table as well
         let name: String = (0..(l % 35)).map(|i| (b'a' + (i % 26) as u8) as char).collect();
-        push(&mut lines, format!("build {}", fmt_files(&[(name, rng.bytes(l))])));
+        out.push(format!("build {}", fmt_files(&[(name, rng.bytes(l))])));
     }
 
     // 2. random ordered maps of 0..40 files
@@ -352,7 +441,7 @@ pub fn gen(seed: u64, tier: &str) -> Vec<String> {
             _ => rng.range(0, 40),
         } as usize;
         let files = random_files(&mut rng, k);
-        push(&mut lines, format!("build {}", fmt_files(&files)));
+        out.push(format!("build {}", fmt_files(&files)));
     }
     {
         // many files: header and name table far larger than one padding block; more than 255
@@ -362,7 +451,7 @@ pub fn gen(seed: u64, tier: &str) -> Vec<String> {
             let files: Vec<(String, Vec<u8>)> = (0..k)
                 .map(|i| (format!("f{:x}", i), rng.bytes((i * 7) % 40)))
                 .collect();
-            push(&mut lines, format!("build {}", fmt_files(&files)));
+            out.push(format!("build {}", fmt_files(&files)));
         }
     }
 
@@ -399,7 +488,7 @@ pub fn gen(seed: u64, tier: &str) -> Vec<String> {
             let other = (victim + 1) % k;
             files[other].0.push('\u{E9}');
         }
-        push(&mut lines, format!("build {}", fmt_files(&files)));
+        out.push(format!("build {}", fmt_files(&files)));
     }
     for lossy in ['\u{A5}', '\u{203E}', '\u{2212}'] {
         for pos in 0..2 {
@@ -409,7 +498,7 @@ pub fn gen(seed: u64, tier: &str) -> Vec<String> {
             } else {
                 files[1].0.insert(0, lossy);
             }
-            push(&mut lines, format!("build {}", fmt_files(&files)));
+            out.push(format!("build {}", fmt_files(&files)));
         }
     }
 
@@ -419,12 +508,64 @@ pub fn gen(seed: u64, tier: &str) -> Vec<String> {
     let s0 = rng.below(1000);
     // (the list-based model needs ~1.5 s for 1024 files and ~25 s for 4096: the latter is thorough-only)
     for (k, mode) in [(257usize, "model"), (1024, "model"), (32767, "oracle"), (32768, "oracle"), (65535, "oracle")] {
-        push(&mut lines, format!("bigbuild {} {} {}", k, s0, mode));
+        out.push(format!("bigbuild {} {} {}", k, s0, mode));
     }
     if thorough {
         for (k, mode) in [(4096usize, "model"), (49152, "oracle"), (65534, "oracle"), (65535, "oracle")] {
-            push(&mut lines, format!("bigbuild {} {} {}", k, s0 + 1, mode));
+            out.push(format!("bigbuild {} {} {}", k, s0 + 1, mode));
         }
+    }
+
+    // 2c. long names around the 64 / 128 / 256 byte marks with a double-byte character whose TRAIL
+    //     byte lies in a lead-byte range at every offset around the mark (a block-wise decoder that
+    //     carries a "lead-looking" last byte into the next block garbles exactly these); library
+    //     round trip and independently built images
+    for b in [64usize, 128, 256] {
+        let w = if thorough { 8 } else { 3 };
+        let names = boundary_names(&mut rng, b, w);
+        for chunk in names.chunks(12) {
+            let files: Vec<(String, Vec<u8>)> =
+                chunk.iter().map(|n| { let l = rng.range(0, 5) as usize; (n.clone(), rng.bytes(l)) }).collect();
+            out.push(format!("build {}", fmt_files(&files)));
+            let img = build_foreign(&mut rng, &files, Layout::Shuffled);
+            out.push(format!("parse {} {}", hex(&img), fmt_files(&files)));
+        }
+    }
+    {
+        // a name crossing 2^16 encoded bytes, double-byte character straddling 65535 | 65536
+        let chars = trail_like_lead_chars();
+        let mut files: Vec<(String, Vec<u8>)> = Vec::new();
+        let totals: &[usize] = if thorough { &[65535, 65536, 65537, 65538] } else { &[65537] };
+        for &total in totals {
+            files.push((boundary_name(total, 65535.min(total - 2), *rng.pick(&chars), total), vec![1, 2, 3]));
+        }
+        out.push(format!("build {}", fmt_files(&files)));
+    }
+
+    // 2d. second use on the same thread: a FAILING parse (a name that runs off the end of the
+    //     buffer), then an ordinary round trip / parse of a conforming image — same case id, so the
+    //     sequence is replayed as a whole. State left behind by the failed call must not leak.
+    let second = if thorough { 300 } else { 24 };
+    for j in 0..second {
+        let mut seq: Vec<String> = Vec::new();
+        for _ in 0..rng.range(1, 2) {
+            seq.push(format!("parse {} ~", hex(&unterminated_image(&mut rng))));
+        }
+        let k = rng.range(1, 6) as usize;
+        let files = random_files(&mut rng, k);
+        if j % 2 == 0 {
+            seq.push(format!("build {}", fmt_files(&files)));
+        } else {
+            let img = build_foreign(&mut rng, &files, Layout::Shuffled);
+            seq.push(format!("parse {} {}", hex(&img), fmt_files(&files)));
+        }
+        if rng.chance(1, 3) {
+            // ... and once more after another failure
+            seq.push(format!("parse {} ~", hex(&unterminated_image(&mut rng))));
+            let files = random_files(&mut rng, 2);
+            seq.push(format!("build {}", fmt_files(&files)));
+        }
+        out.push_seq(seq);
     }
 
     // 3. foreign (spec-built) conforming images
@@ -453,7 +594,7 @@ pub fn gen(seed: u64, tier: &str) -> Vec<String> {
             }
         }
         let img = build_foreign(&mut rng, &files, layout);
-        push(&mut lines, format!("parse {} {}", hex(&img), fmt_files(&files)));
+        out.push(format!("parse {} {}", hex(&img), fmt_files(&files)));
     }
 
     // 4. malformed stream
@@ -545,9 +686,9 @@ pub fn gen(seed: u64, tier: &str) -> Vec<String> {
                 }
             }
         }
-        push(&mut lines, format!("parse {} ~", hex(&img)));
+        out.push(format!("parse {} ~", hex(&img)));
     }
-    lines
+    out.lines
 }
 
 // ---------------------------------------------------------------------------------------------
